@@ -34,6 +34,8 @@ type scenario struct {
 	sendAmp int
 	// every connection's Close closes it and then returns an error
 	closeErr bool
+	// the exit callback takes a moment
+	slowExit bool
 }
 
 // what the slow-drain class measured about its own timing
@@ -102,7 +104,7 @@ func runScenarioT(sc scenario) ([]phaseRec, string, timing) {
 	}
 	w := newWorld(rt, wt)
 	w.pace, w.chunk, w.amp = sc.pace, sc.chunk, sc.amp
-	w.sendAmp, w.closeErr = sc.sendAmp, sc.closeErr
+	w.sendAmp, w.closeErr, w.slowExit = sc.sendAmp, sc.closeErr, sc.slowExit
 	var dog *watchdog
 	if sc.pace > 0 {
 		dog = startWatchdog()
@@ -322,8 +324,8 @@ func caseOf(sc scenario, recs []phaseRec, note string) vh.Case {
 	type jp struct {
 		Issued     []string `json:"issued"`
 		Concurrent bool     `json:"issued_concurrently,omitempty"`
-		Observed obsAll   `json:"observed"`
-		Matched  bool     `json:"model_agrees"`
+		Observed   obsAll   `json:"observed"`
+		Matched    bool     `json:"model_agrees"`
 	}
 	var desc []jp
 	nontrivial := false
@@ -360,6 +362,9 @@ func caseOf(sc scenario, recs []phaseRec, note string) vh.Case {
 	if sc.closeErr {
 		d["conn_close_returns_error"] = true
 	}
+	if sc.slowExit {
+		d["exit_callback_takes_300us"] = true
+	}
 	if sc.readTO != 0 || sc.writeTO != 0 {
 		d["readTimeout"] = sc.readTO.String()
 		d["writeTimeout"] = sc.writeTO.String()
@@ -368,14 +373,14 @@ func caseOf(sc scenario, recs []phaseRec, note string) vh.Case {
 }
 
 type jLabel struct {
-	K  int    `json:"k"`
-	I  int    `json:"i"`
-	T  int    `json:"t,omitempty"`
-	R  bool   `json:"r,omitempty"`
-	B  []byte `json:"b,omitempty"`
-	F  int    `json:"f,omitempty"`
-	N  bool   `json:"n,omitempty"`
-	P  bool   `json:"p,omitempty"`
+	K int    `json:"k"`
+	I int    `json:"i"`
+	T int    `json:"t,omitempty"`
+	R bool   `json:"r,omitempty"`
+	B []byte `json:"b,omitempty"`
+	F int    `json:"f,omitempty"`
+	N bool   `json:"n,omitempty"`
+	P bool   `json:"p,omitempty"`
 }
 type jScenario struct {
 	Class string     `json:"class"`
@@ -388,10 +393,11 @@ type jScenario struct {
 	Amp   int        `json:"amp,omitempty"`
 	SAmp  int        `json:"samp,omitempty"`
 	CErr  bool       `json:"cerr,omitempty"`
+	SExit bool       `json:"sexit,omitempty"`
 }
 
 func encodeReplay(sc scenario, phases [][]label) string {
-	j := jScenario{Class: sc.class, Maxc: sc.maxc, RT: int64(sc.readTO), WT: int64(sc.writeTO), Pace: int64(sc.pace), Chunk: sc.chunk, Amp: sc.amp, SAmp: sc.sendAmp, CErr: sc.closeErr}
+	j := jScenario{Class: sc.class, Maxc: sc.maxc, RT: int64(sc.readTO), WT: int64(sc.writeTO), Pace: int64(sc.pace), Chunk: sc.chunk, Amp: sc.amp, SAmp: sc.sendAmp, CErr: sc.closeErr, SExit: sc.slowExit}
 	for _, p := range phases {
 		var q []jLabel
 		for _, l := range p {
@@ -417,7 +423,7 @@ func decodeReplay(s string) (scenario, error) {
 		phases = append(phases, q)
 	}
 	return scenario{class: j.Class, maxc: j.Maxc, readTO: time.Duration(j.RT), writeTO: time.Duration(j.WT), strategy: staticStrategy(phases),
-		pace: time.Duration(j.Pace), chunk: j.Chunk, amp: j.Amp, sendAmp: j.SAmp, closeErr: j.CErr}, nil
+		pace: time.Duration(j.Pace), chunk: j.Chunk, amp: j.Amp, sendAmp: j.SAmp, closeErr: j.CErr, slowExit: j.SExit}, nil
 }
 
 func main() {
